@@ -216,8 +216,8 @@ def retry_counters(body, main):
     return ids
 
 
-def r_guards(rep, f):
-    for mod, ty in CONTROLLED:
+def r_guards(rep, f, include_rk4=False):
+    for mod, ty in (SOLVERS if include_rk4 else CONTROLLED):
         fn = solve_fn(mod, ty)
         body = f.body(fn)
         main = main_loop_of(body)
@@ -230,9 +230,11 @@ def r_guards(rep, f):
         seen_rules = set()
         for key, msg, node, trail in m.violations:
             rule = key.split(":")[0]
+            if mod == "rk4" and rule == "R-GUARD-UNDERFLOW":
+                continue   # fixed step size: nothing can underflow
             seen_rules.add(rule)
             rep.violation(rule, key, msg, node.get("sp") if isinstance(node, dict) else None)
-        if "R-GUARD-UNDERFLOW" not in seen_rules:
+        if "R-GUARD-UNDERFLOW" not in seen_rules and mod != "rk4":
             rep.ok("R-GUARD-UNDERFLOW", "R-GUARD-UNDERFLOW:%s" % fn, "every cycle passes an underflow exit or a bounded retry counter (%d counter(s))" % len(rc))
         if "R-BUDGET" not in seen_rules:
             rep.ok("R-BUDGET", "R-BUDGET:%s" % fn, "every cycle increments Steps::total or a bounded retry counter")
